@@ -379,6 +379,10 @@ class HTMLUnicodeInputStream(object):
                 # chunk:
                 self.chunk = char + self.chunk
                 self.chunkSize += 1
+                # The character was already counted as part of the previous
+                # chunk: keep position() pointing at the same place
+                if char != "\n" and self.prevNumCols > 0:
+                    self.prevNumCols -= 1
             else:
                 self.chunkOffset -= 1
                 assert self.chunk[self.chunkOffset] == char
